@@ -110,12 +110,26 @@ func runC07(t *testing.T, c *choice.Stream, r *Result, opt RunOpt) {
 	if c.Bool("rev.latest", 1, 2) {
 		rev = proto.Version
 	}
-	kind := []string{"block", "block-auto", "column", "message"}[c.Weighted("kind", 5, 3, 2, 3)]
+	kind := []string{"block", "block-auto", "column", "message", "block-skip"}[c.Weighted("kind", 5, 3, 2, 3, 1)]
 	var stream []byte
 	var dec c07Decoder
 	desc := map[string]any{"kind": kind, "revision": rev}
 	method := ""
 	switch kind {
+	case "block-skip":
+		// a header block (columns, no rows) read by a caller that bound no result:
+		// the names and types are skipped, and a cut inside them must still be seen
+		cols := DrawCols(c, "cols", 4, 2)
+		var w refproto.W
+		if err := refproto.EncodeBlock(&w, rev, DrawBlock(c, cols, 0)); err != nil {
+			panic(err)
+		}
+		stream = w.B
+		desc["cols"] = colNames(cols)
+		dec = func(src *simio.FaultyReader) error {
+			var blk proto.Block
+			return blk.DecodeBlock(proto.NewReader(src), rev, nil)
+		}
 	case "block", "block-auto":
 		cols := DrawCols(c, "cols", 3, 2)
 		rows := gen.DrawRows(c, "rows")
